@@ -73,6 +73,8 @@ pub struct World {
     /// further server instances on the same storage (SQLite: own storage object on the same
     /// directory; in-memory: own `Server` over the shared storage), each with its own clock skew.
     /// The instance in `inst`/`app` is the one currently serving; `switch_to` swaps.
+    /// the last upload (AddVersion / AddSnapshot) as sent, for verbatim retries
+    pub last_upload: Option<(Req, Chunking)>,
     pub others: Vec<(Instance, Option<HttpApp>)>,
     pub cur_inst: usize,
     pub n_inst: usize,
@@ -128,6 +130,7 @@ impl World {
             tolerate_empty_clients: false,
             next_faults: Vec::new(),
             extra_ids: Default::default(),
+            last_upload: None,
             others: Vec::new(),
             cur_inst: 0,
             n_inst: 1,
@@ -175,6 +178,7 @@ impl World {
             tolerate_empty_clients: false,
             next_faults: Vec::new(),
             extra_ids: Default::default(),
+            last_upload: None,
             others: Vec::new(),
             cur_inst: 0,
             n_inst: 1,
@@ -517,6 +521,11 @@ impl World {
             }
             _ => {}
         }
+        if let Op::Resend = op {
+            let (req, ch) = self.last_upload.clone()?;
+            out.bump("fault.duplicate_delivery_of_upload");
+            return Some(self.step_req(req, &ch, "resend", out));
+        }
         if let Op::Create { c } = op {
             // storage contract: new_client only for a client that does not exist
             if self.model.client(&client_id(self.seed, *c)).is_some() {
@@ -528,6 +537,9 @@ impl World {
             Op::AddVersion { ch, .. } | Op::AddSnapshot { ch, .. } => ch.clone(),
             _ => Chunking::Whole,
         };
+        if matches!(req, Req::AddVersion { .. } | Req::AddSnapshot { .. }) {
+            self.last_upload = Some((req.clone(), ch.clone()));
+        }
         Some(self.step_req(req, &ch, op_argclass(op), out))
     }
 
@@ -989,6 +1001,9 @@ pub fn gen_ops(r: &mut Rng, p: &GenParams, n_clients: u8, cfg: &Cfg, page: u32) 
                 let py = pay(r, small);
                 let ch = ops::gen_chunking(r, py.len);
                 ops.push(Op::AddVersion { c, parent, pay: py, ch });
+                if r.chance(7, 100) {
+                    ops.push(Op::Resend);
+                }
             }
             1 => ops.push(Op::GetChild { c, parent: ops::gen_idarg(r, false) }),
             2 => {
@@ -996,6 +1011,9 @@ pub fn gen_ops(r: &mut Rng, p: &GenParams, n_clients: u8, cfg: &Cfg, page: u32) 
                 let py = pay(r, small);
                 let ch = ops::gen_chunking(r, py.len);
                 ops.push(Op::AddSnapshot { c, v: ops::gen_idarg(r, true), pay: py, ch });
+                if r.chance(6, 100) {
+                    ops.push(Op::Resend);
+                }
                 if r.chance(30, 100) {
                     ops.push(Op::GetSnapshot { c });
                 }
@@ -1059,12 +1077,19 @@ pub fn gen_plan(seed: u64, backend: Backend, entry: Entry, focus: Focus, thoroug
     let max_payload = match focus {
         Focus::Payloads => {
             if thorough {
-                1 << 20
+                (1 << 20) + 2
             } else {
-                200_000
+                600_000
             }
         }
-        _ => 20_000,
+        // mostly small, but a few runs of every focus carry bodies beyond 256 KiB and 1 MiB
+        _ => {
+            if r.chance(6, 100) {
+                (1 << 20) + 2
+            } else {
+                20_000
+            }
+        }
     };
     let p = GenParams {
         backend,
